@@ -427,6 +427,7 @@ Record pos_ok (b : str) (p : positions) : Prop := {
   po_auth_root : scheme_end p < authority_end p ->
                  ox_path b p = [] \/ hd_is is_slash (ox_path b p) = true;
   po_noauth : authority_end p = scheme_end p -> starts_with [c_slash; c_slash] (ox_path b p) = false;
+  po_after_query : skipn (query_end p) b = [] \/ hd_is (N.eqb c_hash) (skipn (query_end p) b) = true;
   po_qe : query_end p = match skipn (path_end p) b with
                         | c :: rest => if N.eqb c c_qm then path_end p + 1 + find_or_len (N.eqb c_hash) rest
                                        else path_end p
@@ -490,6 +491,13 @@ Proof.
     destruct Hae as [[Eae En]|[rest [E Eae]]]; [|lia].
     destruct (starts_with [c_slash; c_slash] (firstn (find_or_len is_qh (skipn ae b)) (skipn ae b))) eqn:S; [|reflexivity].
     apply starts_with_firstn in S. apply starts_with_strip in S as [r S]. rewrite Eae in S. congruence.
+  - subst qe. pose proof (find_or_len_rest is_qh (skipn ae b)) as HR. rewrite <- Hrest in HR.
+    destruct (skipn pe b) as [|c rest] eqn:E; [left; exact E|].
+    destruct (N.eqb_spec c c_qm) as [->|Hn].
+    + replace (pe + 1 + find_or_len (N.eqb c_hash) rest) with (pe + (1 + find_or_len (N.eqb c_hash) rest)) by lia.
+      rewrite skipn_add, E. cbn [Nat.add skipn]. apply find_or_len_rest.
+    + rewrite E. right. destruct HR as [HR|HR]; [discriminate|]. cbn [hd_is] in *.
+      unfold is_qh in HR. apply orb_true_iff in HR as [HR|HR]; apply N.eqb_eq in HR; subst; [congruence|reflexivity].
   - reflexivity.
 Qed.
 
@@ -527,7 +535,7 @@ Lemma new_query_end :
   match find_if (N.eqb c_hash) (skipn (path_end p) b) with Some i => i + path_end p | None => length b end
   = query_end p.
 Proof.
-  destruct Hok. rewrite po_qe0.
+  destruct Hok as [? ? ? ? ? ? po_after_path0 ? ? ? po_qe0]. rewrite po_qe0.
   assert (L : length (skipn (path_end p) b) = length b - path_end p) by apply skipn_length.
   destruct (skipn (path_end p) b) as [|c rest] eqn:E.
   - simpl in *. lia.
@@ -1077,8 +1085,412 @@ Proof.
     + change (repeat_str dotdot_slash (S nb') ++ suffix)
         with (c_dot :: ([c_dot; c_slash] ++ repeat_str dotdot_slash nb' ++ suffix)).
       rewrite (resolve_rel b p c_dot _ Hpos eq_refl eq_refl eq_refl). fold ha.
-      change (c_dot :: ([c_dot; c_slash] ++ repeat_str dotdot_slash nb' ++ suffix))
+      change (c_dot :: c_dot :: c_slash :: repeat_str dotdot_slash nb' ++ suffix)
         with (repeat_str dotdot_slash (S nb') ++ suffix).
       rewrite Hchain, Hpp. cbn [option_map]. exact Hfin.
-    + rewrite parents_repeat, (parents_zero _ Hnodd). lia.
+    + change (parents_of (repeat_str dotdot_slash (S nb') ++ suffix) <= n).
+      rewrite parents_repeat, (parents_zero _ Hnodd). lia.
+Qed.
+
+(* ================= (2) an IRI that differs from the base in query/fragment only ================= *)
+Lemma lcp_app b k f : k <= length b -> k <= lcp b (firstn k b ++ f).
+Proof.
+  revert k. induction b as [|x b IH]; intros k Hk; simpl in Hk.
+  - assert (k = 0) by lia. subst. simpl. lia.
+  - destruct k as [|k]; [lia|]. cbn [firstn app lcp]. rewrite N.eqb_refl. specialize (IH k). lia.
+Qed.
+
+Lemma new_some b n p : positions_of b = Some p -> exists z, new b n = Some z.
+Proof.
+  intros H. unfold new. rewrite H. cbv zeta.
+  match goal with |- context [let '(a, b) := ?X in _] => destruct X end. eexists. reflexivity.
+Qed.
+
+Lemma slice_from_app a f : (f = [] \/ hd_is (fun c => negb (is_cont c)) f = true) ->
+  slice_from (a ++ f) (length a) = Some f.
+Proof.
+  intros Hf. unfold slice_from.
+  assert (E : skipn (length a) (a ++ f) = f).
+  { rewrite skipn_app, skipn_all, Nat.sub_diag. reflexivity. }
+  assert (B : is_char_boundary (a ++ f) (length a) = true).
+  { unfold is_char_boundary. destruct (length a) as [|k] eqn:L; [reflexivity|]. rewrite <- L.
+    rewrite nth_error_app2, Nat.sub_diag by lia.
+    destruct Hf as [->|Hf].
+    - cbn [nth_error]. rewrite app_nil_r. apply Nat.eqb_refl.
+    - destruct f as [|c t]; [discriminate|]. cbn [nth_error hd_is] in *. exact Hf. }
+  rewrite B, E. reflexivity.
+Qed.
+
+Theorem relativize_same_document b n p i f :
+  positions_of b = Some p -> i = firstn (query_end p) b ++ f ->
+  (f = [] \/ hd_is (N.eqb c_hash) f = true) ->
+  relativize b n i = Ret (Some f).
+Proof.
+  intros Hpos Hi Hf. destruct (new_some b n p Hpos) as [z Hnew].
+  unfold relativize. rewrite Hnew.
+  destruct (new_inv _ _ _ Hnew) as (p' & Hpos' & Hok & Hb & Hqe & _).
+  rewrite Hpos in Hpos'. injection Hpos' as <-.
+  unfold relativize_z. rewrite Hb, Hqe.
+  pose proof (po_qe_len _ _ Hok) as Hlen.
+  assert (L : length (firstn (query_end p) b) = query_end p) by (rewrite firstn_length; lia).
+  assert (Hl : query_end p <= lcp b i) by (subst i; apply lcp_app; exact Hlen).
+  destruct (Nat.leb_spec (query_end p) (lcp b i)) as [_|]; [|lia].
+  assert (Hs : slice_from i (query_end p) = Some f).
+  { subst i. rewrite <- L at 2. apply slice_from_app. destruct Hf as [Hf|Hf]; [left; exact Hf|right].
+    destruct f as [|c t]; [discriminate|]. cbn [hd_is] in *. apply N.eqb_eq in Hf. subst c. reflexivity. }
+  assert (Hr : rest_is (N.eqb c_hash) i (query_end p) = Some true).
+  { unfold rest_is. destruct (Nat.eqb_spec (length i) (query_end p)); [reflexivity|].
+    rewrite Hs. cbn [option_map]. destruct Hf as [->|Hf]; [|rewrite Hf; reflexivity].
+    exfalso. subst i. rewrite app_nil_r in *. lia. }
+  rewrite Hr. unfold emit_from. rewrite Hs. reflexivity.
+Qed.
+
+(* same path and a query on the IRI: never [None] (a reference is produced unless the IRI is not UTF-8) *)
+Theorem relativize_same_path_query b n p i q :
+  positions_of b = Some p -> i = firstn (path_end p) b ++ c_qm :: q ->
+  relativize b n i <> Ret None.
+Proof.
+  intros Hpos Hi. destruct (new_some b n p Hpos) as [z Hnew].
+  unfold relativize. rewrite Hnew.
+  destruct (new_inv _ _ _ Hnew) as (p' & Hpos' & Hok & Hb & Hqe & Hpe & _).
+  rewrite Hpos in Hpos'. injection Hpos' as <-.
+  unfold relativize_z. rewrite Hb, Hqe, Hpe.
+  pose proof (po_qe_len _ _ Hok) as Hlen. pose proof (po_pe_qe _ _ Hok) as Hpq.
+  assert (L : length (firstn (path_end p) b) = path_end p) by (rewrite firstn_length; lia).
+  assert (Hl : path_end p <= lcp b i) by (subst i; apply lcp_app; lia).
+  assert (Hs : slice_from i (path_end p) = Some (c_qm :: q)).
+  { subst i. rewrite <- L at 2. apply slice_from_app. right. reflexivity. }
+  destruct (if query_end p <=? lcp b i then rest_is (N.eqb c_hash) i (query_end p) else Some false)
+    as [[|]|]; unfold emit_from.
+  - destruct (slice_from i (query_end p)); discriminate.
+  - destruct (Nat.leb_spec (path_end p) (lcp b i)) as [_|]; [|lia].
+    rewrite Hs. cbn [option_map hd_is]. rewrite N.eqb_refl. discriminate.
+  - discriminate.
+Qed.
+
+(* ================= (3) the resolver never fails on a base with an authority ================= *)
+Lemma pp_rm_auth : forall inp rout, pp_rm true rout inp <> None.
+Proof.
+  induction inp as [|c inp IH]; intros rout; cbn [pp_rm]; unfold two_slash_err; cbn [negb andb].
+  - discriminate.
+  - destruct (N.eqb c c_slash).
+    + destruct (dot_fix true rout); apply IH.
+    + destruct (is_qh c); [discriminate|apply IH].
+Qed.
+
+Theorem resolve_defined b p r :
+  positions_of b = Some p -> scheme_end p < authority_end p -> hd_is (N.eqb c_colon) r = false ->
+  exists o, resolve b r = Some o.
+Proof.
+  intros Hp Ha Hr. unfold resolve. rewrite Hp, Hr.
+  apply Nat.ltb_lt in Ha. rewrite Ha.
+  destruct (scheme_len r); [eauto|].
+  destruct r as [|c r']; [eauto|].
+  destruct (N.eqb c c_slash).
+  - destruct (hd_is is_slash r'); [eauto|].
+    destruct (pp_rm true [c_slash] r') eqn:E; [simpl; eauto|]. elim (pp_rm_auth _ _ E).
+  - destruct (N.eqb c c_qm); [eauto|]. destruct (N.eqb c c_hash); [eauto|].
+    destruct (pp_rm true (rls true (rev (ox_path b p))) (c :: r')) eqn:E; [simpl; eauto|]. elim (pp_rm_auth _ _ E).
+Qed.
+
+(* ================= the code BEFORE the fix violates (1): replayed witnesses ================= *)
+Definition wrong_reference (b i : str) (n : nat) : Prop :=
+  exists r, relativize_prefix b n i = Ret (Some r) /\ resolve b r <> Some i.
+
+(* base <http://a/b/c>, IRI <http://a/b/x:y>: first segment of the emitted suffix contains ':' (taken for a scheme) *)
+Example relativize_prefix_refuted_colon :
+  wrong_reference ([104; 116; 116; 112; 58; 47; 47; 97; 47; 98; 47; 99]%N)
+    ([104; 116; 116; 112; 58; 47; 47; 97; 47; 98; 47; 120; 58; 121]%N) 1.
+Proof. eexists. split; [vm_compute; reflexivity|vm_compute; discriminate]. Qed.
+(* base <http://a/b/c>, IRI <http://a/b//d>: empty segment right after the common prefix (absolute-path reference) *)
+Example relativize_prefix_refuted_empty_segment :
+  wrong_reference ([104; 116; 116; 112; 58; 47; 47; 97; 47; 98; 47; 99]%N)
+    ([104; 116; 116; 112; 58; 47; 47; 97; 47; 98; 47; 47; 100]%N) 1.
+Proof. eexists. split; [vm_compute; reflexivity|vm_compute; discriminate]. Qed.
+(* base <http://a/b/c>, IRI <http://a/b/../c>: dot segments in the IRI are removed when resolving *)
+Example relativize_prefix_refuted_dot_segments :
+  wrong_reference ([104; 116; 116; 112; 58; 47; 47; 97; 47; 98; 47; 99]%N)
+    ([104; 116; 116; 112; 58; 47; 47; 97; 47; 98; 47; 46; 46; 47; 99]%N) 1.
+Proof. eexists. split; [vm_compute; reflexivity|vm_compute; discriminate]. Qed.
+(* base <s:a/b>, IRI <s:a/c:d>: rootless base *)
+Example relativize_prefix_refuted_rootless :
+  wrong_reference ([115; 58; 97; 47; 98]%N)
+    ([115; 58; 97; 47; 99; 58; 100]%N) 1.
+Proof. eexists. split; [vm_compute; reflexivity|vm_compute; discriminate]. Qed.
+(* base <http://a/b>, IRI <http://a/bcd>: the base is a strict prefix of the IRI *)
+Example relativize_prefix_refuted_base_is_prefix :
+  wrong_reference ([104; 116; 116; 112; 58; 47; 47; 97; 47; 98]%N)
+    ([104; 116; 116; 112; 58; 47; 47; 97; 47; 98; 99; 100]%N) 1.
+Proof. eexists. split; [vm_compute; reflexivity|vm_compute; discriminate]. Qed.
+(* base <http://a/b?q>, IRI <http://a/b>: the base has a query and the IRI has none: the empty reference keeps the query *)
+Example relativize_prefix_refuted_query_dropped :
+  wrong_reference ([104; 116; 116; 112; 58; 47; 47; 97; 47; 98; 63; 113]%N)
+    ([104; 116; 116; 112; 58; 47; 47; 97; 47; 98]%N) 1.
+Proof. eexists. split; [vm_compute; reflexivity|vm_compute; discriminate]. Qed.
+(* base <s://h>, IRI <s://hh>: the authority of the base is a strict prefix of that of the IRI *)
+Example relativize_prefix_refuted_authority_prefix :
+  wrong_reference ([115; 58; 47; 47; 104]%N)
+    ([115; 58; 47; 47; 104; 104]%N) 1.
+Proof. eexists. split; [vm_compute; reflexivity|vm_compute; discriminate]. Qed.
+(* base <http://\u00e9?q>, IRI <http://\u00e9/x>: iri[pseudoroot - 1..] slices inside the two-byte character *)
+Example relativize_prefix_refuted_panic :
+  relativize_prefix ([104; 116; 116; 112; 58; 47; 47; 195; 169; 63; 113]%N) 1 ([104; 116; 116; 112; 58; 47; 47; 195; 169; 47; 120]%N) = Panic.
+Proof. vm_compute. reflexivity. Qed.
+(* ... and the fixed code on the same inputs *)
+Example relativize_fixed_colon :
+  match relativize ([104; 116; 116; 112; 58; 47; 47; 97; 47; 98; 47; 99]%N) 1 ([104; 116; 116; 112; 58; 47; 47; 97; 47; 98; 47; 120; 58; 121]%N) with
+  | Ret (Some r) => resolve ([104; 116; 116; 112; 58; 47; 47; 97; 47; 98; 47; 99]%N) r = Some ([104; 116; 116; 112; 58; 47; 47; 97; 47; 98; 47; 120; 58; 121]%N)
+  | Ret None => True | Panic => False end.
+Proof. vm_compute. auto. Qed.
+Example relativize_fixed_empty_segment :
+  match relativize ([104; 116; 116; 112; 58; 47; 47; 97; 47; 98; 47; 99]%N) 1 ([104; 116; 116; 112; 58; 47; 47; 97; 47; 98; 47; 47; 100]%N) with
+  | Ret (Some r) => resolve ([104; 116; 116; 112; 58; 47; 47; 97; 47; 98; 47; 99]%N) r = Some ([104; 116; 116; 112; 58; 47; 47; 97; 47; 98; 47; 47; 100]%N)
+  | Ret None => True | Panic => False end.
+Proof. vm_compute. auto. Qed.
+Example relativize_fixed_dot_segments :
+  match relativize ([104; 116; 116; 112; 58; 47; 47; 97; 47; 98; 47; 99]%N) 1 ([104; 116; 116; 112; 58; 47; 47; 97; 47; 98; 47; 46; 46; 47; 99]%N) with
+  | Ret (Some r) => resolve ([104; 116; 116; 112; 58; 47; 47; 97; 47; 98; 47; 99]%N) r = Some ([104; 116; 116; 112; 58; 47; 47; 97; 47; 98; 47; 46; 46; 47; 99]%N)
+  | Ret None => True | Panic => False end.
+Proof. vm_compute. auto. Qed.
+Example relativize_fixed_rootless :
+  match relativize ([115; 58; 97; 47; 98]%N) 1 ([115; 58; 97; 47; 99; 58; 100]%N) with
+  | Ret (Some r) => resolve ([115; 58; 97; 47; 98]%N) r = Some ([115; 58; 97; 47; 99; 58; 100]%N)
+  | Ret None => True | Panic => False end.
+Proof. vm_compute. auto. Qed.
+Example relativize_fixed_base_is_prefix :
+  match relativize ([104; 116; 116; 112; 58; 47; 47; 97; 47; 98]%N) 1 ([104; 116; 116; 112; 58; 47; 47; 97; 47; 98; 99; 100]%N) with
+  | Ret (Some r) => resolve ([104; 116; 116; 112; 58; 47; 47; 97; 47; 98]%N) r = Some ([104; 116; 116; 112; 58; 47; 47; 97; 47; 98; 99; 100]%N)
+  | Ret None => True | Panic => False end.
+Proof. vm_compute. auto. Qed.
+Example relativize_fixed_query_dropped :
+  match relativize ([104; 116; 116; 112; 58; 47; 47; 97; 47; 98; 63; 113]%N) 1 ([104; 116; 116; 112; 58; 47; 47; 97; 47; 98]%N) with
+  | Ret (Some r) => resolve ([104; 116; 116; 112; 58; 47; 47; 97; 47; 98; 63; 113]%N) r = Some ([104; 116; 116; 112; 58; 47; 47; 97; 47; 98]%N)
+  | Ret None => True | Panic => False end.
+Proof. vm_compute. auto. Qed.
+Example relativize_fixed_authority_prefix :
+  match relativize ([115; 58; 47; 47; 104]%N) 1 ([115; 58; 47; 47; 104; 104]%N) with
+  | Ret (Some r) => resolve ([115; 58; 47; 47; 104]%N) r = Some ([115; 58; 47; 47; 104; 104]%N)
+  | Ret None => True | Panic => False end.
+Proof. vm_compute. auto. Qed.
+
+(* ================= no slicing off a character boundary ================= *)
+Lemma run_app a : forall m t, run m (a ++ t) = match run m a with Some m' => run m' t | None => None end.
+Proof.
+  induction a as [|c a IH]; intros m t; [reflexivity|]. cbn [app run]. destruct m.
+  - destruct (lead_len c); [apply IH|reflexivity].
+  - destruct (is_cont c); [apply IH|reflexivity].
+Qed.
+
+Lemma lead_not_cont c k : lead_len c = Some k -> is_cont c = false.
+Proof.
+  unfold lead_len, is_cont. destruct (N.ltb_spec c 128).
+  - intros _. apply andb_false_iff. left. apply N.leb_gt. assumption.
+  - destruct (N.ltb_spec c 192); [discriminate|]. intros _. apply andb_false_r.
+Qed.
+
+Lemma ascii_lead c : (c < 128)%N -> lead_len c = Some 0.
+Proof. intros H. unfold lead_len. apply N.ltb_lt in H. rewrite H. reflexivity. Qed.
+
+Lemma run_next m c t : run m (c :: t) <> None -> (m = 0 <-> is_cont c = false).
+Proof.
+  destruct m; cbn [run].
+  - destruct (lead_len c) eqn:E; [|congruence]. intros _. apply lead_not_cont in E. split; auto.
+  - destruct (is_cont c); [|congruence]. intros _. split; discriminate.
+Qed.
+
+Definition okcut (s : str) (k : nat) : Prop := run 0 (firstn k s) = Some 0.
+
+Lemma prefix_runs s k : utf8_ok s = true ->
+  exists m, run 0 (firstn k s) = Some m /\ run m (skipn k s) = Some 0.
+Proof.
+  unfold utf8_ok. intros H. destruct (run 0 s) as [[|m]|] eqn:E; try discriminate.
+  rewrite <- (firstn_skipn k s), run_app in E.
+  destruct (run 0 (firstn k s)) as [m|]; [|discriminate]. eauto.
+Qed.
+
+Lemma nth_error_skipn {A} (s : list A) : forall k, nth_error s k = hd_error (skipn k s).
+Proof. induction s as [|x s IH]; intros [|k]; try reflexivity. apply IH. Qed.
+
+Lemma boundary_iff s k : utf8_ok s = true -> k <= length s -> (is_char_boundary s k = true <-> okcut s k).
+Proof.
+  intros Hu Hk. destruct (prefix_runs s k Hu) as (m & E1 & E2). unfold okcut. rewrite E1.
+  unfold is_char_boundary. destruct k as [|k].
+  - simpl in E1. split; [intros _; symmetry; exact E1|reflexivity].
+  - rewrite nth_error_skipn. destruct (skipn (S k) s) as [|c t] eqn:Es; cbn [hd_error].
+    + simpl in E2. assert (S k = length s).
+      { apply (f_equal (@length N)) in Es. rewrite skipn_length in Es. simpl in Es. lia. }
+      split; [intros _; congruence|intros _; apply Nat.eqb_eq; assumption].
+    + assert (Hn : run m (c :: t) <> None) by congruence. apply run_next in Hn.
+      rewrite negb_true_iff, <- Hn. split; congruence.
+Qed.
+
+Lemma slice_ok b i k : utf8_ok i = true -> okcut b k -> k <= lcp b i -> slice_from i k = Some (skipn k i).
+Proof.
+  intros Hu Hb Hk. unfold slice_from.
+  assert (B : is_char_boundary i k = true).
+  { apply boundary_iff; [exact Hu|pose proof (lcp_le_r b i); lia|].
+    unfold okcut in *. rewrite <- (lcp_firstn _ _ _ Hk). exact Hb. }
+  rewrite B. reflexivity.
+Qed.
+
+Lemma firstn_S_nth {A} (s : list A) : forall j c, nth_error s j = Some c -> firstn (S j) s = firstn j s ++ [c].
+Proof.
+  induction s as [|x s IH]; intros [|j] c H; try discriminate.
+  - injection H as ->. reflexivity.
+  - cbn [nth_error] in H. change (x :: firstn (S j) s = x :: firstn j s ++ [c]). f_equal. apply IH. exact H.
+Qed.
+
+Lemma okcut_after_ascii s j c : utf8_ok s = true -> nth_error s j = Some c -> (c < 128)%N -> okcut s (S j).
+Proof.
+  intros Hu Hn Hc. destruct (prefix_runs s j Hu) as (m & E1 & E2).
+  rewrite nth_error_skipn in Hn. destruct (skipn j s) as [|c' t] eqn:Es; [discriminate|].
+  cbn [hd_error] in Hn. injection Hn as ->.
+  assert (Hm : m = 0).
+  { apply (run_next m c t); [congruence|]. apply (lead_not_cont c 0). apply ascii_lead. exact Hc. }
+  subst m. unfold okcut. rewrite (firstn_S_nth s j c), run_app, E1.
+  - cbn [run]. rewrite ascii_lead by exact Hc. reflexivity.
+  - rewrite nth_error_skipn, Es. reflexivity.
+Qed.
+
+Lemma okcut_at_noncont s k : utf8_ok s = true -> k <= length s ->
+  (skipn k s = [] \/ hd_is (fun c => negb (is_cont c)) (skipn k s) = true) -> okcut s k.
+Proof.
+  intros Hu Hk H. apply boundary_iff; [exact Hu|exact Hk|].
+  unfold is_char_boundary. destruct k as [|k]; [reflexivity|]. rewrite nth_error_skipn.
+  destruct H as [H|H].
+  - rewrite H. cbn [hd_error]. apply Nat.eqb_eq.
+    apply (f_equal (@length N)) in H. rewrite skipn_length in H. simpl in H. lia.
+  - destruct (skipn (S k) s); [discriminate|]. exact H.
+Qed.
+
+Lemma nth_error_skipn_add {A} (s : list A) pb j : nth_error (skipn pb s) j = nth_error s (pb + j).
+Proof.
+  revert s. induction pb as [|pb IH]; intros s; [reflexivity|].
+  destruct s; [destruct j; reflexivity|]. apply IH.
+Qed.
+
+Lemma slashes_loop_slash b pb : forall fuel pos s,
+  In s (slashes_loop fuel b pb pos) -> nth_error b s = Some c_slash.
+Proof.
+  induction fuel as [|f IH]; intros pos s H; cbn [slashes_loop] in H; [contradiction|].
+  destruct (rfind c_slash (slice pb pos b)) as [[|i]|] eqn:F; try contradiction.
+  destruct H as [<-|H]; [|eapply IH; exact H].
+  destruct (rfind_decomp _ _ F) as (a & t & E & La & _). unfold slice in E.
+  assert (X : skipn pb b = a ++ c_slash :: (t ++ skipn (pos - pb) (skipn pb b))).
+  { rewrite <- (firstn_skipn (pos - pb) (skipn pb b)) at 1. rewrite E, <- app_assoc. reflexivity. }
+  rewrite Nat.add_comm, <- nth_error_skipn_add, X, nth_error_app2 by lia.
+  rewrite La, Nat.sub_diag. reflexivity.
+Qed.
+
+Lemma in_removelast {A} (l : list A) x : In x (removelast l) -> In x l.
+Proof.
+  induction l as [|y l IH]; [contradiction|]. destruct l as [|y2 l]; [contradiction|].
+  change (removelast (y :: y2 :: l)) with (y :: removelast (y2 :: l)).
+  intros [->|H]; [left; reflexivity|right; apply IH; exact H].
+Qed.
+
+Lemma last_in {A} (l : list A) d : l <> [] -> In (last l d) l.
+Proof.
+  induction l as [|y l IH]; [congruence|]. intros _. destruct l as [|y2 l]; [left; reflexivity|].
+  right. apply IH. discriminate.
+Qed.
+
+Lemma positions_colon b p : positions_of b = Some p -> nth_error b (scheme_end p - 1) = Some c_colon.
+Proof.
+  unfold positions_of. destruct (scheme_len b) as [k|] eqn:E; [|discriminate]. intros [= <-].
+  cbn [scheme_end]. replace (S k - 1) with k by lia.
+  unfold scheme_len in E. destruct (hd_is is_alpha b); [|discriminate].
+  revert k E. induction b as [|c b IH]; intros k; cbn [scheme_scan]; [discriminate|].
+  destruct (N.eqb_spec c c_colon) as [->|]; [intros [= <-]; reflexivity|].
+  destruct (is_scheme_char c); [|discriminate]. destruct (scheme_scan b) as [j|]; [|discriminate].
+  intros [= <-]. apply IH. reflexivity.
+Qed.
+
+Lemma qh_not_cont c : is_qh c = true -> negb (is_cont c) = true.
+Proof. unfold is_qh. intros H. apply orb_true_iff in H as [H|H]; apply N.eqb_eq in H; subst; reflexivity. Qed.
+
+Lemma okcut_path_begin b p : utf8_ok b = true -> positions_of b = Some p -> okcut b (authority_end p).
+Proof.
+  intros Hu Hp. pose proof (positions_ok _ _ Hp) as Hok.
+  pose proof (po_ae_pe _ _ Hok). pose proof (po_pe_qe _ _ Hok). pose proof (po_qe_len _ _ Hok).
+  destruct (po_se_ae _ _ Hok) as [E|E].
+  - rewrite E. pose proof (po_se_pos _ _ Hok).
+    replace (scheme_end p) with (S (scheme_end p - 1)) by lia.
+    apply (okcut_after_ascii b _ c_colon Hu); [apply positions_colon; exact Hp|reflexivity].
+  - apply okcut_at_noncont; [exact Hu|lia|].
+    destruct (po_auth_root _ _ Hok) as [H'|H']; [lia| |].
+    + (* empty path: what follows is '?', '#' or nothing *)
+      pose proof (new_path_end0 b p Hok) as L. rewrite H' in L. simpl in L.
+      replace (authority_end p) with (path_end p) by lia.
+      destruct (po_after_path _ _ Hok) as [->|Hq]; [left; reflexivity|right].
+      destruct (skipn (path_end p) b); [discriminate|]. cbn [hd_is] in *. apply qh_not_cont. exact Hq.
+    + right. unfold ox_path, slice in H'.
+      destruct (skipn (authority_end p) b) as [|c t]; [destruct (path_end p - authority_end p); discriminate|].
+      destruct (path_end p - authority_end p); [discriminate|]. cbn [firstn hd_is] in *.
+      unfold is_slash in H'. apply N.eqb_eq in H'. subst c. reflexivity.
+Qed.
+
+Lemma new_cut_ok b n z p l nb cut : utf8_ok b = true -> new b n = Some z -> positions_of b = Some p ->
+  find_cut l (z_slashes z) 0 (z_pseudoroot z) = (nb, cut) -> okcut b cut.
+Proof.
+  intros Hu Hnew Hpos Hfc.
+  destruct (new_inv _ _ _ Hnew) as (p' & Hpos' & Hok & _ & _ & _ & _ & _ & Hsl).
+  rewrite Hpos in Hpos'. injection Hpos' as <-. cbv zeta in Hsl.
+  set (SL := slashes_loop (S n) b (authority_end p) (path_end p)) in *.
+  assert (Hslash : forall s, In s SL -> okcut b (s + 1)).
+  { intros s Hs. rewrite Nat.add_1_r. apply (okcut_after_ascii b s c_slash Hu); [|reflexivity].
+    eapply slashes_loop_slash. exact Hs. }
+  assert (Hroot : hd_is is_slash (skipn (authority_end p) b) = true -> okcut b (authority_end p + 1)).
+  { intros Hr. rewrite Nat.add_1_r. apply (okcut_after_ascii b _ c_slash Hu); [|reflexivity].
+    rewrite nth_error_skipn. destruct (skipn (authority_end p) b) as [|c t]; [discriminate|].
+    cbn [hd_is hd_error] in *. unfold is_slash in Hr. apply N.eqb_eq in Hr. congruence. }
+  assert (Hsub : forall s, In s (z_slashes z) -> In s SL).
+  { intros s Hs. destruct (n <? length SL).
+    - injection Hsl as Hz _. rewrite Hz in Hs. apply in_removelast. exact Hs.
+    - destruct (hd_is is_slash (skipn (authority_end p) b)); injection Hsl as Hz _; rewrite Hz in Hs; exact Hs. }
+  apply find_cut_spec in Hfc as [(j & Hj & _ & -> & _)|[_ ->]].
+  - apply Hslash, Hsub. apply nth_In. exact Hj.
+  - destruct (Nat.ltb_spec n (length SL)) as [Hn|Hn].
+    + injection Hsl as _ ->. apply Hslash. apply last_in. destruct SL; [simpl in Hn; lia|discriminate].
+    + destruct (hd_is is_slash (skipn (authority_end p) b)) eqn:Hr; injection Hsl as _ ->.
+      * apply Hroot. reflexivity.
+      * apply okcut_path_begin; assumption.
+Qed.
+
+(* for well-formed UTF-8 inputs no slice of the fixed relativize is off a character boundary *)
+Theorem relativize_no_panic b n i :
+  utf8_ok b = true -> utf8_ok i = true -> relativize b n i <> Panic.
+Proof.
+  intros Hub Hui. unfold relativize. destruct (new b n) as [z|] eqn:Hnew; [|discriminate].
+  destruct (new_inv _ _ _ Hnew) as (p & Hpos & Hok & Hb & Hqe & Hpe & Hpb & Hha & _).
+  pose proof (po_ae_pe _ _ Hok). pose proof (po_pe_qe _ _ Hok). pose proof (po_qe_len _ _ Hok).
+  unfold relativize_z. rewrite Hb, Hqe, Hpe, Hpb, Hha. set (l := lcp b i).
+  assert (SQ : query_end p <= l -> slice_from i (query_end p) = Some (skipn (query_end p) i)).
+  { intros Hl. apply (slice_ok b); [exact Hui| |exact Hl]. apply okcut_at_noncont; [exact Hub|lia|].
+    destruct (po_after_query _ _ Hok) as [->|Hq]; [left; reflexivity|right].
+    destruct (skipn (query_end p) b); [discriminate|]. cbn [hd_is] in *. apply N.eqb_eq in Hq. subst. reflexivity. }
+  assert (SP : path_end p <= l -> slice_from i (path_end p) = Some (skipn (path_end p) i)).
+  { intros Hl. apply (slice_ok b); [exact Hui| |exact Hl]. apply okcut_at_noncont; [exact Hub|lia|].
+    destruct (po_after_path _ _ Hok) as [->|Hq]; [left; reflexivity|right].
+    destruct (skipn (path_end p) b); [discriminate|]. cbn [hd_is] in *. apply qh_not_cont. exact Hq. }
+  unfold emit_from, rest_is.
+  destruct (Nat.leb_spec (query_end p) l) as [HA|HA].
+  - rewrite (SQ HA). destruct (Nat.eqb (length i) (query_end p)); [discriminate|]. cbn [option_map].
+    destruct (hd_is (N.eqb c_hash) (skipn (query_end p) i)); [discriminate|].
+    destruct (Nat.leb_spec (path_end p) l) as [HB|HB]; [|lia].
+    rewrite (SP HB). cbn [option_map]. destruct (hd_is (N.eqb c_qm) (skipn (path_end p) i)); [discriminate|].
+    destruct (Nat.leb_spec (z_pseudoroot z) l) as [HC|HC]; [|discriminate].
+    destruct (find_cut l (z_slashes z) 0 (z_pseudoroot z)) as [nb cut] eqn:Hfc.
+    rewrite (slice_ok b i cut Hui (new_cut_ok _ _ _ _ _ _ _ Hub Hnew Hpos Hfc) (find_cut_le _ _ _ _ _ _ HC Hfc)).
+    repeat match goal with |- (if ?c then _ else _) <> _ => destruct c end; discriminate.
+  - destruct (Nat.leb_spec (path_end p) l) as [HB|HB].
+    + rewrite (SP HB). cbn [option_map]. destruct (hd_is (N.eqb c_qm) (skipn (path_end p) i)); [discriminate|].
+      destruct (Nat.leb_spec (z_pseudoroot z) l) as [HC|HC]; [|discriminate].
+      destruct (find_cut l (z_slashes z) 0 (z_pseudoroot z)) as [nb cut] eqn:Hfc.
+      rewrite (slice_ok b i cut Hui (new_cut_ok _ _ _ _ _ _ _ Hub Hnew Hpos Hfc) (find_cut_le _ _ _ _ _ _ HC Hfc)).
+      repeat match goal with |- (if ?c then _ else _) <> _ => destruct c end; discriminate.
+    + destruct (Nat.leb_spec (z_pseudoroot z) l) as [HC|HC]; [|discriminate].
+      destruct (find_cut l (z_slashes z) 0 (z_pseudoroot z)) as [nb cut] eqn:Hfc.
+      rewrite (slice_ok b i cut Hui (new_cut_ok _ _ _ _ _ _ _ Hub Hnew Hpos Hfc) (find_cut_le _ _ _ _ _ _ HC Hfc)).
+      repeat match goal with |- (if ?c then _ else _) <> _ => destruct c end; discriminate.
 Qed.
